@@ -121,8 +121,14 @@ def main():
                     failures.append({"family": fname, "class": cls, "input": case["input"], "expected": res.get("expected"), "actual": res.get("actual"),
                                      "repro": "cd /verif && ./check %s --replay <this file>" % a.prop})
             failures.sort(key=lambda f: (str(f["class"]), len(json.dumps(f["input"], default=str))))
+            # at most 3 (the smallest) per input class, so that a frequent class -- a listed known finding, say -- never crowds out another one
+            kept, per = [], {}
+            for f in failures:
+                per[str(f["class"])] = per.get(str(f["class"]), 0) + 1
+                if per[str(f["class"])] <= 3:
+                    kept.append(f)
             section["bounded"].append({"name": fam.name, "bound": fam.bound, "rule": fam.rule, "cases": len(results), "distinct": len(distinct),
-                                       "samples": [c["input"] for c in cases[:2]], "failures": failures[:40], "n_failures": len(failures),
+                                       "samples": [c["input"] for c in cases[:2]], "failures": kept[:90], "n_failures": len(failures),
                                        "wall_s": round(time.time() - t0, 2)})
             if a.stop_at_first and failures:
                 break
